@@ -134,24 +134,19 @@ package tq
 //@   ensures result == nil ==> fexists(old(t.Path)) && hexsha(fdata(old(t.Path))) == old(t.Oid)
 //@   ensures result != nil ==> fexists(old(t.Path)) == old(fexists(t.Path)) && fdata(old(t.Path)) == old(fdata(t.Path))
 
-// Paths in the "incomplete" area are not object paths (assumed: they are
-// built under <storage>/incomplete or the system temp directory).
+// The staging area of downloads is <storage>/incomplete, or the system temp
+// directory if that cannot be created: an auxiliary area either way.
 //@ func (*basicDownloadAdapter).tempDir
-//@   assumed
 //@   props C02 C09
+//@   requires @inv a.fs != nil
 //@   modifies fresh
+//@   ensures isauxdir(result)
 //@ func (*basicDownloadAdapter).downloadFilename
-//@   assumed
 //@   props C02 C09
+//@   requires @inv t != nil && a.fs != nil && isoid(t.Oid)
 //@   modifies fresh
-//@   ensures !isobj(result)
-//@ func github.com/git-lfs/git-lfs/v3/tools.TempFile
-//@   assumed
-//@   props C02 C09
-//@   modifies fresh, ghost fpath[result0], ghost fexists[fpath(result0)], ghost fdata[fpath(result0)], ghost rrest[iface(result0)]
-//@   ensures result1 == nil ==> result0 != nil && isfresh(result0) && fexists(fpath(result0))
-//@   ensures !isobj(fpath(result0))
-//@   ensures result1 != nil ==> result0 == nil
+//@   ensures isauxdir(path_dir(result)) && !isobj(result)
+
 
 // C06: accounting.  counter is the number of objects the queue still waits
 // for; chsent(ch) counts sends on a channel.
